@@ -181,20 +181,26 @@ Definition parse_userinfo (ser : str) (input : list N) (special : bool) : pres (
   end.
 
 (* ------------------------------------------------------------------ host *)
-(* the for loop of parse_host: (has_ignored_chars, non_ignored_chars, characters consumed, remaining) *)
-Fixpoint host_scan (special : bool) (l : list N) (inside has_ign : bool) (non_ign consumed : nat)
-  : bool * nat * nat * list N :=
+(* the for loop of parse_host:
+   (has_ignored_chars, non_ignored_chars, ignored_chars, characters consumed, remaining) *)
+Fixpoint host_scan (special : bool) (l : list N) (inside has_ign : bool) (non_ign ign consumed : nat)
+  : bool * nat * nat * nat * list N :=
   match l with
-  | [] => (has_ign, non_ign, consumed, [])
+  | [] => (has_ign, non_ign, ign, consumed, [])
   | c :: r =>
-      if N.eqb c COLON && negb inside then (has_ign, non_ign, consumed, l)
-      else if N.eqb c BSLASH && special then (has_ign, non_ign, consumed, l)
-      else if N.eqb c SLASH || N.eqb c QMARK || N.eqb c HASH then (has_ign, non_ign, consumed, l)
-      else if ignored_host c then host_scan special r inside true non_ign (S consumed)
-      else if N.eqb c LBRACK then host_scan special r true has_ign (S non_ign) (S consumed)
-      else if N.eqb c RBRACK then host_scan special r false has_ign (S non_ign) (S consumed)
-      else host_scan special r inside has_ign (S non_ign) (S consumed)
+      if N.eqb c COLON && negb inside then (has_ign, non_ign, ign, consumed, l)
+      else if N.eqb c BSLASH && special then (has_ign, non_ign, ign, consumed, l)
+      else if N.eqb c SLASH || N.eqb c QMARK || N.eqb c HASH then (has_ign, non_ign, ign, consumed, l)
+      else if ignored_host c then host_scan special r inside true non_ign (S ign) (S consumed)
+      else if N.eqb c LBRACK then host_scan special r true has_ign (S non_ign) ign (S consumed)
+      else if N.eqb c RBRACK then host_scan special r false has_ign (S non_ign) ign (S consumed)
+      else host_scan special r inside has_ign (S non_ign) ign (S consumed)
   end.
+
+(* .filter(|c| !matches!(c, '\t' | '\n' | '\r')) *)
+Definition host_filter (l : list N) : list N := filter (fun c => negb (memN c url_ignored_host_filter)) l.
+(* a byte of the idna output that makes parse_host fail with IdnaError *)
+Definition idna_rejected (b : N) : bool := memN b url_idna_rejected_bytes.
 
 Definition is_slash (c : N) : bool := N.eqb c SLASH || N.eqb c BSLASH.
 (* input.split_prefix("//") *)
@@ -212,14 +218,18 @@ Variable tokenize : str -> list N.        (* utils::tokenize_pooled on the lower
 
 (* (serialization, host_end, remaining) *)
 Definition parse_host (ser : str) (input : list N) (special : bool) : pres (str * nat * list N) :=
-  match host_scan special input false false 0 0 with
-  | (has_ign, non_ign, consumed, remaining) =>
-      (* has_ignored: input.take(non_ignored_chars).collect(); else &input_str[..bytes] *)
-      let host_str := encode_all (if has_ign then take non_ign input else take consumed input) in
+  match host_scan special input false false 0 0 0 with
+  | (has_ign, non_ign, ign, consumed, remaining) =>
+      (* has_ignored: input.take(non_ignored_chars + ignored_chars).filter(..).collect();
+         else &input_str[..bytes] *)
+      let host_str := encode_all (if has_ign then host_filter (take (non_ign + ign) input)
+                                  else take consumed input) in
       if all_ascii host_str then
         let ser' := ser ++ host_str in POk (ser', length ser', remaining)
       else match idna host_str with
-           | Some encoded => let ser' := ser ++ encoded in POk (ser', length ser', remaining)
+           | Some encoded =>
+               if existsb idna_rejected encoded then PErr IdnaError
+               else let ser' := ser ++ encoded in POk (ser', length ser', remaining)
            | None => PErr IdnaError
            end
   end.
@@ -440,29 +450,12 @@ Definition host_terminator (special : bool) (c : N) : bool :=
 Definition host_forbidden (special : bool) (c : N) : bool :=
   N.eqb c SLASH || N.eqb c QMARK || N.eqb c HASH || N.eqb c AT || (special && N.eqb c BSLASH).
 
-(* carve-out of finding F21: a tab / LF / CR inside the authority (userinfo or host) of the input *)
+(* the characters of the authority: the input up to the first / ? # (\ for special schemes) *)
 Fixpoint authority_chars (special : bool) (l : list N) : list N :=
   match l with
   | [] => []
   | c :: r => if N.eqb c SLASH || N.eqb c QMARK || N.eqb c HASH || (special && N.eqb c BSLASH) then []
               else c :: authority_chars special r
-  end.
-
-(* the input characters after "scheme:" and the slashes, or None if there is no authority *)
-Definition authority_input (input : list N) : option (bool * list N) :=
-  match parse_scheme (trim_input input) with
-  | None => None
-  | Some (scheme, rem) =>
-      match scheme_type_from scheme with
-      | File => None
-      | SpecialNotFile => Some (true, drop_while is_slash rem)
-      | NotSpecial => match split_double_slash rem with Some rest => Some (false, rest) | None => None end
-      end
-  end.
-Definition F21_ignored_chars_in_host (input : list N) : bool :=
-  match authority_input input with
-  | Some (special, a) => existsb ignored_host (authority_chars special a)
-  | None => false
   end.
 
 (* hand-written tables (WebExtensions webRequest.ResourceType / Firefox content-policy names -> type;
@@ -487,10 +480,6 @@ Fixpoint is_suffixb (x l : str) : bool :=
 (* how the host text of the input becomes the reported hostname: copied when ASCII, else idna *)
 Definition host_out (idna : str -> option str) (raw h : str) : Prop :=
   (all_ascii raw = true /\ h = raw) \/ (all_ascii raw = false /\ idna raw = Some h).
-
-(* carve-out of finding F25: what idna returns must not contain a URL delimiter *)
-Definition idna_no_delimiter (idna : str -> option str) : Prop :=
-  forall h e, idna h = Some e -> existsb (host_forbidden true) e = false.
 
 (* ------------------------------------------------------------------ helpers for the cases *)
 Definition oracle_of {A} (l : list (str * A)) (d : A) (k : str) : A :=
